@@ -256,9 +256,10 @@ Section Update.
               | tg =>
                   let stk := if tag_eqb tg TMANIFEST then us_stack s0 ++ [(fpath, rel)] else us_stack s0 in
                   if tag_eqb tg TMANIFEST && mem_str rel (l_updated l0) then Ok (mk_us l0 ed' stk (us_ids s0), news, lastft) else
-                  (* entries of a Manifest found only by this run were never checked: the mtime shortcut does not apply to them *)
+                  (* entries of a Manifest found only by this run, or of one that is queued for rewriting (its entries may have been
+                     completed from dropped duplicates), were never checked: the mtime shortcut does not apply to them *)
                   '(changed, sz, ck) <- upd_entry w (pjoin dirpath f) fe (Some hashes) (l_dev l0)
-                                                 (if mem_str mpath new_manifests then None else last_mtime) ;;
+                                                 (if mem_str mpath new_manifests || mem_str mpath (l_updated l0) then None else last_mtime) ;;
                   let l1 := set_entry_at l0 mpath id (with_size_cks fe sz ck) in
                   let l2 := if changed then add_updated l1 mpath else l1 in
                   Ok (mk_us l2 ed' stk (us_ids s0), news, lastft)
